@@ -235,6 +235,7 @@ package evaluator
 //@   ensures[C10 C09 bound] name != "_" ==> has(s.values, name) && s.values[name] == val
 //@   ensures[C10 others] forall(k, string, k != name ==> has(s.values, k) == old(has(s.values, k)) && s.values[k] == old(s.values[k]))
 //@   modifies s.values[*]
+//@   opt modclasses map:string:evaluator.value#dom@evaluator.scope.values, map:string:evaluator.value#val@evaluator.scope.values, map:string:evaluator.value#size@evaluator.scope.values
 
 //@ func (s *scope) update(name string, val value)
 //@   props C10 C09
